@@ -15,6 +15,8 @@ import (
 var (
 	ErrClosed     = errors.New("the segment file is closed")
 	ErrInvalidCRC = errors.New("invalid crc value, log record maybe corrupted")
+	// ErrIncompleteChunk chunk 头部或数据超出了可读的有效字节
+	ErrIncompleteChunk = errors.New("incomplete chunk, log record maybe truncated")
 )
 
 type FileID = uint32
